@@ -49,6 +49,7 @@ class S(vlib.Spec):
         "hand-written models coq/Mask/{Path,Desc,Trie,Json}.v of fieldmask/{path,utils,mask,storage,serdes}.go; the four child stores of a FieldMask are one association list (a store is non-nil iff it has an entry: every set* allocates and inserts, nothing is deleted)",
         "Go's encoding/json (text -> fieldMaskTransfer), strconv.Unquote/Quote/Atoi and sort.Stable as modelled on the fragment the compared streams use (bytes < 0x80; escapes \\\\ \\\" \\n \\t \\r \\xHH); int is 64 bit; field ids fit int16 in queries",
         "the projection of real thrift_reflection descriptors to Mask/Desc.v terms (harness/maskkit/desc.go: IsBasic/IsList/IsMap/IsStruct/IsEnum, typedefs unwrapped); the real library is always run on the real, typedef-carrying descriptors",
+        "the path strings given to the library are map print_path ps for the generated syntactic paths (coq/Mask/Print.v = maskkit.Path.Render; compared in Coq on every grammar case and variant, code 9), and tokenize (print_path p) = tokens_of p is a theorem",
         "harness/cmd/c14 (drives the real fieldmask package in-process, every call under recover, watchdog for calls that do not return), harness/coqfmt, lib/vlib.py",
         "the totality stream (arbitrary byte strings and JSON documents) is judged by 'no panic, no hang' only; nothing is proved about panics",
     ]
